@@ -35,7 +35,10 @@ func HarnessLexStep() {
 		data[i] = verifRune(&wide)
 	}
 	line, col, eol := ndInt("line"), ndInt("col"), ndBool("eol")
-	verifAssume(line >= 0 && line < 1000000 && col >= -1 && col < 1000000)
+	verifAssume(line >= 0)
+	verifAssume(line < 1000000)
+	verifAssume(col >= -1)
+	verifAssume(col < 4000) // verifKey packs the column into 12 bits
 	l := &Lexer{data: data, line: line, column: col, isEOL: eol}
 	// reference positions: pos[k] = position of the k-th consumed rune (k>=1);
 	// pos[n+1] is where EOF is reported.
